@@ -163,13 +163,46 @@ pub fn run(seed: u64, count: usize, thorough: bool, out: &mut Out) {
                 p.full_sort();
                 p.renumber();
                 let n = p.model(0).map_or(0, |m| m.atom_count());
-                for _ in 0..rng.below(4) {
+                // every accepted bond has to connect the two atoms a linear scan of the first model finds for the two keys
+                let find = |p: &PDB, serial: usize, alt: Option<&str>| -> Option<i128> {
+                    p.model(0).and_then(|m| m.atoms_with_hierarchy().position(|h| h.atom().serial_number() == serial && h.conformer().alternative_location() == alt)).map(|k| k as i128)
+                };
+                let mut requested: Vec<Sx> = Vec::new();
+                for _ in 0..rng.below(5) {
                     let a = 1 + rng.below(n.max(1));
                     let c = 1 + rng.below(n.max(1));
-                    let alts = [None, Some("A"), Some("B")];
-                    let (x, y2) = (*rng.pick(&alts), *rng.pick(&alts));
-                    let _ = crate::guarded(|| p.add_bond((a, x), (c, y2), Bond::Covalent));
+                    // the alternative locations the structure really has at those serial numbers, mostly
+                    let alts_of = |p: &PDB, serial: usize| -> Vec<Option<String>> {
+                        p.model(0).map(|m| m.atoms_with_hierarchy().filter(|h| h.atom().serial_number() == serial).map(|h| h.conformer().alternative_location().map(|x| x.to_string())).collect()).unwrap_or_default()
+                    };
+                    let pick_alt = |rng: &mut Rng, p: &PDB, serial: usize| -> Option<String> {
+                        let v = alts_of(p, serial);
+                        if !v.is_empty() && rng.chance(4, 5) { rng.pick(&v).clone() } else { (*rng.pick(&[None, Some("A"), Some("B")])).map(|x: &str| x.to_string()) }
+                    };
+                    let (x, y2) = (pick_alt(&mut rng, &p, a), pick_alt(&mut rng, &p, c));
+                    let expect = (find(&p, a, x.as_deref()), find(&p, c, y2.as_deref()));
+                    let r = crate::guarded(|| p.add_bond((a, x.as_deref()), (c, y2.as_deref()), Bond::Covalent));
+                    let accepted = matches!(r, Some(Some(())));
+                    let wanted = matches!(expect, (Some(_), Some(_)));
+                    out.case("C16", call("expect-bond", vec![b(wanted)]), b(accepted), "prop:add-bond-accepts-present-atoms", true);
+                    if let (true, (Some(i), Some(j))) = (accepted, expect) {
+                        requested.push(l(vec![z(i), z(j)]));
+                    }
                 }
+                let listed: Vec<Sx> = {
+                    let atoms: Vec<&Atom> = p.atoms().collect();
+                    crate::guarded(|| {
+                        p.bonds()
+                            .map(|(a, c, _)| {
+                                let pa = atoms.iter().position(|x| std::ptr::eq(*x, a)).map_or(-1, |v| v as i128);
+                                let pc = atoms.iter().position(|x| std::ptr::eq(*x, c)).map_or(-1, |v| v as i128);
+                                l(vec![z(pa), z(pc)])
+                            })
+                            .collect()
+                    })
+                    .unwrap_or_default()
+                };
+                out.case("C16", call("expect-bonds", vec![l(requested)]), l(listed), "prop:bonds-as-requested", true);
                 (p, None)
             }
             _ => {
